@@ -369,18 +369,50 @@ func runAggSigDB(t *testing.T, rt *rapid.T, k valgen.Kind, seed int64, v2 bool) 
 		}
 	}
 	var db aggStore
+	dl := fakes.NewDeadliner()
 	if v2 {
-		db = aggsigdb.NewMemDBV2(fakes.NewDeadliner())
+		db = aggsigdb.NewMemDBV2(dl)
 	} else {
-		db = aggsigdb.NewMemDB(fakes.NewDeadliner())
+		db = aggsigdb.NewMemDB(dl)
 	}
 	go db.Run(ctx)
 	duty := core.Duty{Slot: 5, Type: k.Duty}
 	pristine := render(v)
+	refs := len(valgen.Walk(v))
+	if !v2 && rapid.IntRange(0, 2).Draw(rt, "cancelStoreInFlight") == 0 {
+		// The writer gives up (its context ends) while the store's goroutine is already working on the
+		// write — here: while it is inside its deadliner call — and then reuses its object. If the write
+		// lands all the same, what it stored must still be what was handed over.
+		sctx, scancel := context.WithCancel(ctx)
+		mutated := make(chan struct{})
+		var once sync.Once
+		dl.OnAdd = func(core.Duty, core.DeadlineStatus) {
+			once.Do(func() {
+				scancel()
+				select {
+				case <-mutated:
+				case <-time.After(5 * time.Second):
+				}
+			})
+		}
+		err := db.Store(sctx, duty, core.SignedDataSet{pk(1): v})
+		valgen.Scribble(&v)
+		close(mutated)
+		actx, acancel := context.WithTimeout(ctx, 300*time.Millisecond)
+		r, aerr := db.Await(actx, duty, pk(1), sub)
+		acancel()
+		if aerr == nil {
+			mustSame(rt, "aggsigdb "+k.Name+": value stored by a write whose caller gave up in flight (Store returned "+fmt.Sprint(err)+") and then reused its object", pristine, r)
+		}
+		vstat.Count("aggsigdb_store_cancelled_in_flight", 1)
+		if aerr == nil {
+			vstat.Count("aggsigdb_store_cancelled_in_flight_write_landed", 1)
+		}
+		return refs > 0, ""
+	}
 	if err := db.Store(ctx, duty, core.SignedDataSet{pk(1): v}); err != nil {
 		return false, "store: " + firstWords(err)
 	}
-	refs := len(valgen.Walk(v))
 	valgen.Scribble(&v)
 	r1, err := db.Await(ctx, duty, pk(1), sub)
 	if err != nil {
